@@ -49,7 +49,7 @@ Definition setp (p : bytes) (x : pstate) (st : state) : state :=
 (* ---- what codegen does for a declaration: metrics.NewMetric, and for a
    scalar Int/Float counter GetDatum() + Set(0, time.Unix(0,0)) ---- *)
 Definition zero_dval (ty : N) : dval :=
-  if N.eqb ty 1 then DFloat 0 else if N.eqb ty 3 then DHist 0 0 else DInt 0.
+  if N.eqb ty 1 then DFloat 0 else if N.eqb ty 3 then DHist 0 0 else if N.eqb ty 2 then DStr [] else DInt 0.
 
 (* codegen calls m.GetDatum() for a declaration without keys when it is a
    counter (then Set(0, time.Unix(0,0))) or a histogram (datum.NewBuckets, whose
